@@ -112,7 +112,7 @@ FAST_TESTS = ['test_catalog_thin_diffuser.py', 'test_catalog_plane_detector.py',
               'test_learn_ray_create_ray_from_grid_w_luminous_angle.py', 'test_learn_ray_create_ray_from_point_w_luminous_angle.py',
               'test_learn_ray_intersect_w_a_triangle.py', 'test_learn_ray_intersect_w_triangle_batch.py', 'test_learn_ray_refract_reflect.py',
               'test_learn_tools_losses.py', 'test_learn_tools_freeze_unfreeze.py', 'test_learn_tools_zero_pad_crop_center.py',
-              'test_learn_tools_generate_2d_dirac_delta.py', 'test_learn_wave_propagate_beam.py', 'test_learn_wave_speckle_contrast.py',
+              'test_learn_tools_generate_2d_dirac_delta.py', 
               'test_measurement_modulation_transfer_function.py', 'test_ray_create_ray_from_two_points.py', 'test_ray_find_nearest_points.py',
               'test_ray_intersect_w_a_surface.py', 'test_ray_intersect_w_a_triangle.py', 'test_ray_intersect_w_sphere.py', 'test_tools_PLY.py',
               'test_tools_markdown.py', 'test_tools_save_image.py', 'test_tools_latex.py', 'test_wave_grating.py', 'test_wave_rayleigh_resolution.py',
